@@ -879,7 +879,7 @@ static void case_body(const Case& c, const Feat& ft, const std::string& cs, Ctx&
 // the self-contained case string) and that acknowledges every finished case.  When the case process dies (signal,
 // CPU limit, wall limit, stop at the first AddressSanitizer report) the worker knows which case and which stage it was
 // in, records that, and starts a fresh case process for the next case.  The worker itself never executes SoPlex code.
-static const int WALL_LIMIT_S = 30;
+static const int WALL_LIMIT_S = 180;    // whole case (several executions of the sequence); only a backstop, the read itself has the CPU limit
 struct Session { pid_t pid = -1; int wfd = -1, rfd = -1; pid_t owner = 0; };
 static Session g_sess;
 
